@@ -395,6 +395,17 @@ func c16Run(seed uint64, idx, n int, enabled []string, ops []c16Op, cnt *Counter
 		if pcode == 0 {
 			inc("split:" + op.Kind + ":principal-accepted")
 		}
+		switch op.Kind {
+		case "issue", "redeem", "block", "unblock", "pause":
+			// the asset is one of the case twins ("usdtoken" / "USDTOKEN") and the other twin has
+			// another owner, who is among the refused signers
+			if op.A < 2 && len(v.assets) >= 2 && v.assets[0].owner != v.assets[1].owner && pcode == 0 && codes[v.assets[1-op.A].owner] == 1 {
+				inc("split:issuance:case-twin:owner-accepted-other-twin-owner-refused")
+				if op.A == 1 {
+					inc("split:issuance:case-twin:second-listed")
+				}
+			}
+		}
 		if pcode == 3 {
 			inc("split:" + op.Kind + ":principal-panic")
 		}
@@ -604,6 +615,7 @@ var c16GateSplits = func() []string {
 	return append(out, "swap:incoming", "swap:outgoing", "vote:member-committee", "vote:token-committee", "repay:closes-cdp",
 		"hardwd:capped-to-record", "savwd:capped-to-record", "block:principal-panic", "postprice:another-principal-accepted",
 		"issue:rate-limited-asset", "earnwd:dust-removed", "swap:several-coins",
+		"issuance:case-twin:owner-accepted-other-twin-owner-refused", "issuance:case-twin:second-listed",
 		"swap:several-coins-from-first-deputy-other-deputy-second",
 		"admin:setoracles:applied", "admin:setoracles:oracle-added", "admin:setoracles:removed-oracle-had-posted", "admin:setoracles:refused",
 		"admin:setowner:owner-changed", "admin:setowner:refused", "admin:setdeputy:deputy-changed",
